@@ -140,9 +140,14 @@ def gen_spec(seed: int, config: str | None = None) -> dict:
         if trig_left and rng.random() < 0.5:
             trig_left -= 1
             data_v = rng.choice(KNOWN_TRIGGERS)[1](rng)
-        shape = rng.choice(["list", "list", "dict"])
-        data = [serial, data_v] if shape == "list" else {"s": serial, "v": data_v}
+        shape = rng.choice(["list", "list", "dict", "bare"])
         to = rng.choice([None, "r0", "all", gen_string(rng, tricky)])
+        if shape == "bare":
+            # the data is the value itself (None, a scalar, a string, a container): the serial travels in the recipient
+            data = data_v if rng.random() < 0.8 else rng.choice([None, 0, "", False, [], {}])
+            to = f"#{serial}#" + (to or "")
+        else:
+            data = [serial, data_v] if shape == "list" else {"s": serial, "v": data_v}
         if rng.random() < 0.25:
             node["script"].append({"op": "sleep", "ns": rng.choice([0, 1000, 10**6, 10**8, 2 * 10**8, 10**8 + 1, 5 * 10**6])})
         node["script"].append({"op": "send", "to": to, "data": data, "serial": serial})
@@ -503,10 +508,17 @@ class NodeRunner:
         serial = None
         data = getattr(p, "data", None)
         try:
-            if isinstance(data, list) and data and isinstance(data[0], int):
+            m = re.match(r"#(\d+)#", str(getattr(p, "to", "") or ""))
+            if m:
+                serial = int(m.group(1))
+            elif isinstance(data, list) and data and isinstance(data[0], int):
                 serial = data[0]
             elif isinstance(data, dict) and isinstance(data.get("s"), int):
                 serial = data["s"]
+            if serial is None:
+                m = re.match(r"#(\d+)#", str(getattr(p, "to", "") or ""))
+                if m:
+                    serial = int(m.group(1))
         except Exception:  # noqa: BLE001
             serial = None
         d = {"serial": serial, "id": getattr(p, "id", None), "to": getattr(p, "to", None), "data": data,
@@ -1199,19 +1211,32 @@ def shrink_candidates(spec: dict):
             if op["op"] != "send":
                 continue
             if op["to"] is not None:
-                s = copy.deepcopy(spec)
-                s["nodes"][ni]["script"][oi]["to"] = None
-                yield s
+                m = re.match(r"#\d+#", op["to"]) if isinstance(op["to"], str) else None
+                if m is None:
+                    s = copy.deepcopy(spec)
+                    s["nodes"][ni]["script"][oi]["to"] = None
+                    yield s
+                elif op["to"] != m.group(0):
+                    s = copy.deepcopy(spec)
+                    s["nodes"][ni]["script"][oi]["to"] = m.group(0)
+                    yield s
             data = op["data"]
-            inner = data[1] if isinstance(data, list) else data["v"]
+            bare = isinstance(op["to"], str) and re.match(r"#\d+#", op["to"]) is not None
+            wrapped_list = not bare and isinstance(data, list) and len(data) == 2 and data[0] == op["serial"]
+            wrapped_dict = not bare and isinstance(data, dict) and data.get("s") == op["serial"] and "v" in data
+            inner = data if bare else (data[1] if wrapped_list else (data["v"] if wrapped_dict else None))
             for simpler in simpler_values(inner):
                 s = copy.deepcopy(spec)
-                if isinstance(data, list):
+                if bare:
+                    s["nodes"][ni]["script"][oi]["data"] = simpler
+                elif wrapped_list:
                     s["nodes"][ni]["script"][oi]["data"] = [data[0], simpler]
-                else:
+                elif wrapped_dict:
                     s["nodes"][ni]["script"][oi]["data"] = {"s": data["s"], "v": simpler}
+                else:
+                    continue
                 yield s
-            if isinstance(data, dict):
+            if wrapped_dict:
                 s = copy.deepcopy(spec)
                 s["nodes"][ni]["script"][oi]["data"] = [data["s"], data["v"]]
                 yield s
